@@ -40,7 +40,7 @@ PROPS = {
     },
     "C05": {
         "ops": [("wsl", FF, 10000, 300000), ("fills", FF, 4000, 100000), ("wsl", MIN, 3000, 60000), ("fills", MIN, 1500, 30000)],
-        "explanation": "fragment-level theorems (dw <= byte length; fragments that fit give one first-fit line) — assembly in progress; L2: impl-vs-impl comparison of wrap_single_line with its slow path and of fill with fill_slow_path through upstream's cfg(fuzzing) exports, and 'fits => one unchanged line' on the slow path, outside the listed class CutInsideEscape",
+        "explanation": "theorems C05_fits_first_fit / C05_fits_optimal_fit (fits => exactly one unchanged line; hypotheses TrimOK, Additive = not CutInsideEscape, PenOK = not PenaltyWithoutRoom, each a theorem in the common cases: C05_hypotheses), C05_shortcut_first_fit / _optimal_fit / _texts (the byte-length shortcut is unobservable for ALL paragraphs, arbitrary penalties), C05_fill_shortcut; L2: impl-vs-impl comparison of wrap_single_line with its slow path and of fill with fill_slow_path through upstream's cfg(fuzzing) exports, and fits => one unchanged line, outside the listed classes",
         "assumptions": ["upstream's --cfg fuzzing exports are the only way to reach the slow path directly"],
     },
     "C08": {
@@ -50,7 +50,7 @@ PROPS = {
     },
     "C13": {
         "ops": [("wrap13", FF, 10000, 300000), ("wrap13", MIN, 3000, 60000)],
-        "explanation": "stage theorems (widths blind to well-formed sequences, force-breaking never cuts a sequence, Unicode boundaries at top level) — wrap-level assembly pending; L2: for texts meeting the property's precondition, strip(lines(coloured)) = lines(stripped), no line ends inside a sequence, no sequence dropped, outside the listed class CutInsideEscape",
+        "explanation": "theorem C13_wrap: for paragraphs given as interleavings of visible characters and well-formed space-free sequence runs that are Attached, with HyOK for the hyphen splitter and OracleOK for the Unicode separator, strip(lines of wrap(coloured)) = strip(lines of wrap(plain)) and every coloured line ends at top level — both separators, all splitters, break_words on/off, first-fit and any oracle that is a partition and blind to sequences (proved for the reference optimal-fit); the shortcut hypothesis is C05(b) (C13_shortcut_ok_*); L2: for texts meeting the precondition recogniser, strip(lines(coloured)) = lines(stripped), no line ends inside a sequence, none dropped, outside the listed class CutInsideEscape",
         "assumptions": [],
     },
     "C14": {
